@@ -262,6 +262,7 @@ void exec_case(const Case &c) {
         for (const Obs &x : obs) if (x.live_copies != 0) violation("EXCLUSION", "observer %d's callable has %d live copies after the router was destroyed", x.id, x.live_copies);
     }
     vsched::end();
+    if (vsched::spurious_wakeups()) label("spurious_wakeup");
     { std::string w = "W"; for (uint8_t x : vsched::widths()) w += (char)('0' + (x > 9 ? 9 : x)); aux(w); }
     label_n("switches", (long)vsched::switches());
     if (mutating_during_callback) { label("mutating_op_called_during_callback"); nontrivial(); }
